@@ -575,6 +575,11 @@ def discharge(B, R, site):
         elif op == 'Mul':
             cands = [ra[0] * rb[0], ra[0] * rb[1], ra[1] * rb[0], ra[1] * rb[1]] if INF not in (abs(ra[0]), abs(ra[1]), abs(rb[0]), abs(rb[1])) else [-INF, INF]
             lo, hi = min(cands), max(cands)
+        elif op in ('Rem', 'Div'):
+            # signed MIN / -1 is the only overflowing case
+            if ra[0] > tr[0] or rb[0] > -1 or rb[1] < -1:
+                return 'ok', 'MIN %s -1 excluded by the operand ranges' % ('%' if op == 'Rem' else '/')
+            return ('undecided' if ment(canon(B, a), canon(B, b_)) else 'bad'), '%s may overflow (MIN and -1 both possible)' % op
         elif op in ('Shl', 'Shr'):
             bits = {255: 8, 65535: 16}.get(tr[1], 64 if tr[1] > 2**32 else 32)
             if rb[1] < bits and rb[0] >= 0:
@@ -587,7 +592,9 @@ def discharge(B, R, site):
         return ('undecided' if ment(canon(B, a), canon(B, b_)) else 'bad'), '%s may overflow: operand ranges [%s,%s] and [%s,%s]' % (op, ra[0], ra[1], rb[0], rb[1])
     if k == 'neg':
         ra = R.range_of(need[1], bb)
-        tr = (-2**63, 2**63 - 1)
+        op_ = need[1]
+        tr = ty_range(B.local_ty(op_['pl']['l'])) if (op_['k'] != 'c' and not op_['pl'].get('p')) else None
+        tr = tr or (-2**63, 2**63 - 1)
         if ra[0] > tr[0]:
             return 'ok', 'operand > MIN'
         return ('undecided' if ment(canon(B, need[1])) else 'bad'), 'negation of MIN possible'
